@@ -1,71 +1,83 @@
 #!/usr/bin/env python3
-"""Development aid (not a registered check): run the registered quick checks against every seeded
+"""Development aid (not a registered check): run the registered checks against every seeded
 breaking change under /verif/seeded/<id>/ and print which are detected.
 
-Each change is applied to a scratch worktree of /repo outside /repo and /verif (removed afterwards);
-the check is pointed at it with VERIF_REPO.  (Equivalent to `git -C /repo apply` + check + `git -C
-/repo checkout -- .`, but does not disturb /repo while other work is going on; pass --in-repo to do
-exactly that instead.)
+Each change is applied to its own scratch worktree of /repo outside /repo and /verif (removed
+afterwards); the check is pointed at it with VERIF_REPO.  (Equivalent to `git -C /repo apply` +
+check + `git -C /repo checkout -- .`, but does not disturb /repo while other work is going on.)
+Results are appended to seeded/<id>/meta.json under "check_result".
 
-usage: tools/seeded_run.py [--tier quick|thorough] [--in-repo] [ids...]
+usage: tools/seeded_run.py [--tier quick|thorough] [--jobs N] [ids...]
 """
 import json
 import os
 import subprocess
 import sys
+import time
+from concurrent.futures import ThreadPoolExecutor
 from pathlib import Path
 
 V = Path(__file__).resolve().parent.parent
-WT = Path("/tmp/wt_seedrun")
 
 
 def sh(cmd, **kw):
     return subprocess.run(cmd, shell=True, capture_output=True, text=True, **kw)
 
 
+def one(sid, tier):
+    d = V / "seeded" / sid
+    meta = json.loads((d / "meta.json").read_text())
+    prop = meta["property"]
+    wt = Path(f"/tmp/wt_seedrun_{sid}")
+    sh(f"git -C /repo worktree remove --force {wt}")
+    r = sh(f"git -C /repo worktree add --detach {wt} HEAD")
+    if r.returncode:
+        return (sid, prop, "WORKTREE-FAILED", r.stderr.strip()[:100])
+    try:
+        r = sh(f"git -C {wt} apply {d / 'patch.diff'}")
+        if r.returncode:
+            r = sh(f"git -C {wt} apply --3way {d / 'patch.diff'}")
+        if r.returncode:
+            return (sid, prop, "PATCH-DOES-NOT-APPLY", r.stderr.strip()[:100])
+        env = dict(os.environ, VERIF_REPO=str(wt))
+        t0 = time.time()
+        r = subprocess.run([str(V / "check"), prop, "--tier", tier], cwd=V, env=env, capture_output=True, text=True)
+        viol = [l for l in r.stdout.splitlines() if l.startswith("VIOLATION")]
+        status = "DETECTED" if r.returncode == 1 and viol else ("MISSED" if r.returncode == 0 else f"EXIT{r.returncode}")
+        nofail = bool(viol) and all(l.endswith("no-failing-input-found") for l in viol)
+        last = (r.stdout.strip().splitlines() or [r.stderr[-200:]])[-1]
+        fps = []
+        for l in viol[:4]:
+            try:
+                rp = l.split("replay=")[1].split()[0]
+                fps.append(json.load(open(rp)).get("fingerprint") or "broken:" + ",".join(b["layer"] for b in json.load(open(rp)).get("broken", [])))
+            except Exception:
+                pass
+        status += " (no-failing-input-found)" if nofail else ""
+        meta["check_result"] = {"tier": tier, "status": status, "fingerprints": fps, "wall_s": round(time.time() - t0, 1),
+                                "repo_head": sh("git -C /repo rev-parse --short HEAD").stdout.strip(), "at": time.strftime("%Y-%m-%d %H:%M")}
+        (d / "meta.json").write_text(json.dumps(meta, indent=1) + "\n")
+        return (sid, prop, status, (("; ".join(fps)) if fps else last)[:200])
+    finally:
+        sh(f"git -C /repo worktree remove --force {wt}")
+
+
 def main():
     args = sys.argv[1:]
-    tier = "quick"
-    in_repo = False
+    tier, jobs = "quick", 4
     if "--tier" in args:
-        i = args.index("--tier")
-        tier = args[i + 1]
-        del args[i:i + 2]
-    if "--in-repo" in args:
-        in_repo = True
-        args.remove("--in-repo")
+        i = args.index("--tier"); tier = args[i + 1]; del args[i:i + 2]
+    if "--jobs" in args:
+        i = args.index("--jobs"); jobs = int(args[i + 1]); del args[i:i + 2]
     ids = args or sorted(p.name for p in (V / "seeded").iterdir() if (p / "patch.diff").exists())
-    tree = Path("/repo") if in_repo else WT
-    if not in_repo:
-        sh(f"git -C /repo worktree remove --force {WT}")
-        r = sh(f"git -C /repo worktree add --detach {WT} HEAD")
-        if r.returncode:
-            print(r.stderr)
-            return 2
+    # C07 regenerates a shared Lean file per VERIF_REPO: run those serially at the end
+    par = [i for i in ids if not i.startswith("C07")]
+    ser = [i for i in ids if i.startswith("C07")]
     rows = []
-    try:
-        for sid in ids:
-            d = V / "seeded" / sid
-            meta = json.loads((d / "meta.json").read_text())
-            prop = meta["property"]
-            sh(f"git -C {tree} checkout -- .")
-            r = sh(f"git -C {tree} apply {d / 'patch.diff'}")
-            if r.returncode:
-                rows.append((sid, prop, "PATCH-DOES-NOT-APPLY", r.stderr.strip()[:100]))
-                continue
-            env = dict(os.environ, VERIF_REPO=str(tree))
-            r = subprocess.run([str(V / "check"), prop, "--tier", tier], cwd=V, env=env, capture_output=True, text=True)
-            viol = [l for l in r.stdout.splitlines() if l.startswith("VIOLATION")]
-            status = "DETECTED" if r.returncode == 1 and viol else ("MISSED" if r.returncode == 0 else f"EXIT{r.returncode}")
-            nofail = any(l.endswith("no-failing-input-found") for l in viol)
-            last = (r.stdout.strip().splitlines() or [r.stderr[-200:]])[-1]
-            rows.append((sid, prop, status + (" (no-failing-input-found)" if nofail else ""), (viol[0] if viol else last)[:160]))
-            sh(f"git -C {tree} checkout -- .")
-    finally:
-        if not in_repo:
-            sh(f"git -C /repo worktree remove --force {WT}")
-        else:
-            sh("git -C /repo checkout -- .")
+    with ThreadPoolExecutor(jobs) as ex:
+        rows += list(ex.map(lambda s: one(s, tier), par))
+    for s in ser:
+        rows.append(one(s, tier))
     for r in rows:
         print(" | ".join(r))
     return 0
